@@ -1,7 +1,7 @@
 (* C01 -- validated records read back byte-exact from a node's store.
    Only pinned statements, `exact <lemma>` and Print Assumptions live here. *)
 From Coq Require Import List NArith String Bool.
-From V Require Import lib.Strs gen.Consts model.RecordStore proofs.RecordStore proofs.RecordStoreSettled.
+From V Require Import lib.Strs gen.Consts model.RecordStore proofs.RecordStore proofs.RecordStoreSettled proofs.RecordStoreCap.
 Import ListNotations.
 Open Scope N_scope.
 
@@ -43,6 +43,19 @@ Theorem served_is_held_or_in_flight : forall E ops k v,
   get E (run E ops (init E)) k = Some v ->
   contains (run E ops (init E)) k = true \/ in_flight (run E ops (init E)) k = true.
 Proof. exact served_is_held_or_in_flight_lemma. Qed.
+
+(* Store-initiated removal (cleanup_irrelevant_records): a held key beyond the responsible range, when
+   clean-up applies, is afterwards in NO view -- record index, distance index, read cache -- its file delete
+   is spawned, and the views still agree.  With settled_reads_latest (a clean-up removal is an LRemoved
+   event) it follows that once settled such a key is neither readable nor listed. *)
+Theorem cleanup_removes_from_all_views : forall E s r k, dist_inj E -> Views E s ->
+  cleanup_applies s r -> r <= e_dist E k -> contains s k = true ->
+  contains (cleanup E s) k = false /\
+  (forall d, ~ In (d, k) (bydist (cleanup E s))) /\
+  klookup k (cache (cleanup E s)) = None /\
+  In (TDelete k) (tasks (cleanup E s)) /\
+  Views E (cleanup E s).
+Proof. exact cleanup_removes_from_all_views_lemma. Qed.
 
 (* The verified path has no size gate (the unverified put() refuses values of max_value_bytes or more;
    put_verified never looks at the size, nor does the disk path of get): acceptance does not depend on
